@@ -1,19 +1,14 @@
 import SlVerif.Model.Rvole
-import Std.Data.HashMap
-
-deriving instance Hashable for SlVerif.TOp, SlVerif.Transcript, SlVerif.Curve, SlVerif.Query
-
 namespace SlVerif.Drv.Rvole
 open SlVerif SlVerif.Rvole SlVerif.Generated
 
-/-! The oracle is a function (the harness answers with deterministic library calls), so its answers may be memoised:
-    the base-OT layer is asked for by every receiver-process of the base-OT variant on the same base-OT messages, the
-    OT-extension layer shares queries between the two parties, and the gadget vector (512 challenges on one growing
-    transcript, ~5 MB of query text) is asked for by receiver-new, sender-process and receiver-process of the same
-    session.  The large theta / mu transcripts are never stored; gadget queries are recognised structurally and stored
-    under (session id, index). -/
-initialize memo : IO.Ref (Std.HashMap Query Bytes) ← IO.mkRef {}
-initialize gadgetMemo : IO.Ref (Std.HashMap (Bytes × Nat) Bytes) ← IO.mkRef {}
+/-! The oracle is a function (the harness answers with deterministic library calls), so its answers may be memoised.
+    The gadget vector (512 challenges on one growing transcript, ~5 MB of query text) is asked for by receiver-new,
+    sender-process and receiver-process of the same session: its queries are recognised structurally and their answers
+    kept for the most recent session id.  During a request the answers live in a request-local reference; between requests
+    they are parked in one global reference (a global reference makes everything stored in it shared, which is slow for
+    anything that is updated often). -/
+initialize gadgetGlobal : IO.Ref (Option (Bytes × Array Bytes)) ← IO.mkRef none
 
 /-- `ops` = the operations `[u64 "index" i, chal "next value" 32, u64 "index" (i+1), …]` of `gadgetLoop`, `n` pairs -/
 def isGadgetTail (lIdx lVal : Bytes) : Nat → Nat → List TOp → Bool
@@ -32,30 +27,21 @@ def gadgetQuery? (t : Transcript) : Option (Bytes × Nat) :=
       then some (sid, k) else none
   | _ => none
 
-def memoizable : Query → Bool
-  | .merlin t => t.init ≠ labelBytes RANDOM_VOLE_THETA_LABEL && t.init ≠ labelBytes RANDOM_VOLE_MU_LABEL &&
-                 t.init ≠ labelBytes RANDOM_VOLE_GADGET_VECTOR_LABEL
-  | _ => false
-
-def memoO (O : Query → IO Bytes) (q : Query) : IO Bytes := do
+def memoO (loc : IO.Ref (Option (Bytes × Array Bytes))) (O : Query → IO Bytes) (q : Query) : IO Bytes := do
   if let .merlin t := q then
-    if let some key := gadgetQuery? t then
-      let mp ← gadgetMemo.swap {}
-      match mp[key]? with
-      | some a => gadgetMemo.set mp; return a
-      | none =>
-          let a ← O q
-          gadgetMemo.set ((if mp.size > 20000 then {} else mp).insert key a)
-          return a
-  if !memoizable q then O q else
-  -- the map is taken out of the reference while it is used, so that `insert` updates it in place
-  let mp ← memo.swap {}
-  match mp[q]? with
-  | some a => memo.set mp; pure a
-  | none => do
-      let a ← O q
-      memo.set ((if mp.size > 40000 then {} else mp).insert q a)
-      pure a
+    if let some (sid, k) := gadgetQuery? t then
+      let st ← loc.swap none
+      let (sid', arr) := match st with
+        | some (s, a) => if s == sid then (s, a) else (sid, #[])
+        | none => (sid, #[])
+      if h : k - 1 < arr.size then
+        loc.set (some (sid', arr)); return arr[k - 1]
+      else
+        let a ← O q
+        -- answers are stored in order; a query that skips ahead is answered but not stored
+        loc.set (some (sid', if k - 1 = arr.size then arr.push a else arr))
+        return a
+  O q
 
 /-! wire helpers -/
 
@@ -125,23 +111,21 @@ def E_BITS : Nat := 8 * (RHO * KAPPA_BYTES)
     Entry: `0` (rejected) or `1/<d_0>/<d_1>`. -/
 def flipsCore (O : Query → IO Bytes) (sid beta : Bytes) (vx : List (List Bytes)) (msg : Msg2) (ps : List Nat) :
     IO (List String) := do
+  let VX := decodeTable vx
+  let AT0 := decodeTable msg.aTilde
   let theta0 ← thetaAll O sid msg.aTilde
-  let h0 ← muHashOf O sid (muReceiver theta0 beta vx msg)
+  let h0 ← muHashOf O sid (muReceiver theta0 beta VX AT0 (msg.eta.map ofBe))
   let gref ← IO.mkRef (none : Option (List Nat))
   ps.mapM fun p => do
-    -- a flip outside `a_tilde` is applied to the serialised tail only (same message as `tamperBit msg p`, without
-    -- re-parsing the 48 KiB table; the harness flips the real bytes independently)
-    let m' := if p < A_BITS then tamperBit msg p else
-      let tail := flipBit (msg.eta.flatMap id ++ msg.muHash) (p - A_BITS)
-      { msg with eta := chunks KAPPA_BYTES RHO tail, muHash := (tail.drop (RHO * KAPPA_BYTES)).take 64 }
-    let h ← if p < A_BITS then receiverMu O sid beta vx m'
-            else if p < A_BITS + E_BITS then muHashOf O sid (muReceiver theta0 beta vx m')
+    let m' := tamperBitFast msg p
+    let h ← if p < A_BITS then receiverMu O sid beta VX m'
+            else if p < A_BITS + E_BITS then muHashOf O sid (muReceiver theta0 beta VX AT0 (m'.eta.map ofBe))
             else pure h0
     if m'.muHash ≠ h then pure "0" else do
       let g ← match ← gref.get with
         | some g => pure g
         | none => do let g ← gadgetVec O sid; gref.set (some g); pure g
-      pure s!"1/{String.intercalate "/" ((receiverD g beta vx m').map scHex)}"
+      pure s!"1/{String.intercalate "/" ((receiverD g beta VX (decodeTable m'.aTilde)).map scHex)}"
 
 /-- the receiver's OT layer of the base-OT variant for the last (state, base-OT messages) seen, keyed by the request text -/
 initialize vxMemo : IO.Ref (Option (String × Option (List (List Bytes)))) ← IO.mkRef none
@@ -313,6 +297,10 @@ def handleM (O : Query → IO Bytes) : List String → IO (Option String)
       | _, _, _ => pure none
   | _ => pure none
 
-def handle (O : Query → IO Bytes) (toks : List String) : IO (Option String) := handleM (memoO O) toks
+def handle (O : Query → IO Bytes) (toks : List String) : IO (Option String) := do
+  let loc ← IO.mkRef (← gadgetGlobal.get)
+  let r ← handleM (memoO loc O) toks
+  gadgetGlobal.set (← loc.get)
+  pure r
 
 end SlVerif.Drv.Rvole
